@@ -90,7 +90,7 @@ class Path:
 
 
 class Harness:
-    def __init__(self, cpp, libs=('SUNalg.cpp',), extra_c=('gsl_shim.c',), domain='R', solver=None, defines=(), tag=None):
+    def __init__(self, cpp, libs=('SUNalg.cpp',), extra_c=('gsl_shim.c',), domain='R', solver=None, defines=(), tag=None, native_exclude=()):
         self.cpp = cpp
         self.libs = tuple(libs)
         self.defines = tuple(defines)
@@ -99,6 +99,7 @@ class Harness:
         self.solver = solver if solver is not None else S.Solver()
         self.domain = domain
         self._native = None
+        self.native_exclude = tuple(native_exclude)
         self.functions_encoded = set()
 
     def executor(self, domain=None):
@@ -159,7 +160,7 @@ class Harness:
     # ---------------------------------------------------------------- native
     def native_lib(self):
         if self._native is None:
-            so = build.native_so(self.cpp, self.defines)
+            so = build.native_so(self.cpp, self.defines, exclude=self.native_exclude)
             self._native = ctypes.CDLL(so)
         return self._native
 
